@@ -12,3 +12,4 @@ import Gittuf.Proofs.CacheLoop
 #print axioms Gittuf.World.relLoopC_verdict
 #print axioms Gittuf.Cache.C08_inserts_sorted
 #print axioms Gittuf.Cache.C08_lookup_after_inserts
+#print axioms Gittuf.Cache.C08_inserts_order_independent
